@@ -249,6 +249,10 @@ class NPProxy:
     class _Random:
         def __getattr__(self, k):
             raise Unsupported('library code touched the global numpy generator np.random.%s' % k)
+
+        def RandomState(self, seed=None):
+            from .stubs import SymRandomState
+            return SymRandomState(seed)
     random = _Random()
 
 
